@@ -241,24 +241,47 @@ func TestCheck(t *testing.T) {
 	if !e2e.HaveVT {
 		nVT = 0
 	}
+	// A scenario that does not come back (a client call without a deadline, or a goroutine
+	// spinning inside a bubble so that virtual time cannot advance) is abandoned: inconclusive.
+	guarded := func(name string, wall time.Duration, fn func() *result) *result {
+		done := make(chan *result, 1)
+		go func() { done <- fn() }()
+		select {
+		case res := <-done:
+			return res
+		case <-time.After(wall):
+			r.Inconclusive(name + ": scenario did not return before the wall-clock watchdog (abandoned)")
+			r.Count("e2e_scenarios_abandoned", 1)
+			return nil
+		}
+	}
 	vh.Parallel(nRT, 8, func(i int) {
 		rng := r.Rand("c12-rt", i)
 		pl := genPlan(rng, uint64(r.Seed)<<20|uint64(i), false)
-		res := runScenario(pl, 90*time.Second)
+		res := guarded("rt", 4*time.Minute, func() *result { return runScenario(pl, 90*time.Second) })
+		if res == nil {
+			return
+		}
 		judge(r, res)
 		r.Eval(1)
 	})
 	for i := 0; i < nVT; i++ {
 		rng := r.Rand("c12-vt", i)
 		pl := genPlan(rng, uint64(r.Seed)<<20|uint64(1<<19+i), true)
-		var res *result
-		fail := e2e.Bubble(t, func() { res = runScenario(pl, 40*time.Minute) })
+		res := guarded("vt", 2*time.Minute, func() *result {
+			var res *result
+			fail := e2e.Bubble(t, func() { res = runScenario(pl, 40*time.Minute) })
+			if res == nil {
+				r.Inconclusive("vt scenario produced no result: " + fail)
+				return nil
+			}
+			if fail != "" {
+				res.Inconcl = append(res.Inconcl, "bubble: "+fail)
+			}
+			return res
+		})
 		if res == nil {
-			r.Inconclusive("vt scenario produced no result: " + fail)
 			continue
-		}
-		if fail != "" {
-			res.Inconcl = append(res.Inconcl, "bubble: "+fail)
 		}
 		judge(r, res)
 		r.Eval(1)
